@@ -311,6 +311,39 @@ def check_c01_c02(c, result):
                                                         'with --query: %d results; with --query-file: %s; first difference: %s' % (sum(want.values()), sum(got.values()) if got is not None else e.decode(errors='replace')[-200:],
                                                                                                                                   str(list(((want - got) + (got - want)).items())[:1])[:300] if got is not None else ''), c.files))
                 break
+    # (2j) numeric and lexical edge cases next to an ordinary atom: leading zeros, negative numbers, a minus after a
+    # minus, the ends of the 64-bit range, products that stay inside it, deep parentheses, aliases spelled like keywords
+    # in another case, identifiers that begin like keywords
+    if kinds2:
+        kq = kinds2[0]
+        accq = querygen.KINDS[kq][0][0]
+        vq = querygen.lit(c.gen.value_for(kq, accq).replace('\n', ' '))
+        edge = ['007 == 7', '-1 < 0', '1 - 2 < 0', '7 - -7 == 14', '9223372036854775807 > 0', '0 - 9223372036854775807 < 0', '2147483648 * 2 == 4294967296', '3000000000 * 3 > 8999999999',
+                '0 == 00', '10 - 3 - 2 == 5', '2 * 3 + 4 == 10', '2 + 3 * 4 == 14', '(2 + 3) * 4 == 20', '1 < 2 == true', '!(1 > 2)', '"" == ""', '"a" + "b" == "ab"', '"10" < "9"', '"A" < "a"']
+        tq12, k12 = [], {}
+        for j, ecase in enumerate(edge):
+            for form in ('%s && x.%s() == %s' % (ecase, accq, vq), 'x.%s() == %s && %s' % (accq, vq, ecase), '!(%s) || x.%s() == %s' % (ecase, accq, vq)):
+                qid = 'g%d' % len(tq12)
+                tq12.append((qid, 'FROM %s AS x WHERE %s SELECT x.%s()' % (kq, form, accq)))
+                k12[qid] = 1
+        atom = 'x.%s() == %s' % (accq, vq)
+        for j, alias in enumerate(['select', 'From', 'where', 'As', 'predicatex', 'inn', 'in1', 'FROMx', 'x_1', '_x', 'X']):
+            qid = 'g%d' % len(tq12)
+            tq12.append((qid, 'FROM %s AS %s WHERE %s.%s() == %s SELECT %s.%s()' % (kq, alias, alias, accq, vq, alias, accq)))
+            k12[qid] = 1
+        for depth in (8, 40, 150):
+            qid = 'g%d' % len(tq12)
+            tq12.append((qid, 'FROM %s AS x WHERE %s%s%s SELECT x.%s()' % (kq, '(' * depth, atom, ')' * depth, accq)))
+            k12[qid] = 1
+            qid = 'g%d' % len(tq12)
+            tq12.append((qid, 'FROM %s AS x WHERE %s%s%s SELECT x.%s()' % (kq, '!(' * (2 * (depth // 2)), atom, ')' * (2 * (depth // 2)), accq)))
+            k12[qid] = 1
+        res12, ip12, _ = c.run(tq12)
+        model12 = c.model(tq12)
+        c.tie(tq12, res12, ip12, model12, result)
+        oracle(c, tq12, res12, model12, result, c.files, k12)
+        c.stats['edge_case_queries'] = len(tq12)
+        c.stats['edge_case_in_fragment'] = sum(1 for q_, _ in tq12 if model12.get(q_, {}).get('infrag') == '1')
     # (2d) string literals with multi-byte characters in conditions that are TRUE for (almost) every entity, with and
     # without predicates: a condition cut or re-encoded wrongly loses every match
     tq7, k7 = [], {}
